@@ -257,6 +257,20 @@ theorem forIn_range_getItem {α σ} (xs : List α) (s0 : σ) (B : Int → α →
   simp only [List.length_nil, List.nil_append] at h
   simpa [range, List.range_eq_range', getItem] using h
 
+theorem zip_range_len {α} (xs : List α) : zip (range (xs.length : Int)) xs = enumerate xs (0 : Int) := by
+  simp only [zip, range, enumerate, Int.toNat_natCast]
+  congr 1
+  apply List.map_congr_left
+  intro i _
+  simp
+/-- `zip(xs, range(len(xs)))` is `enumerate(xs)` with the components swapped -/
+theorem zip_len_range {α} (xs : List α) :
+    zip xs (range (xs.length : Int)) = (enumerate xs (0 : Int)).map (fun p => (p.2, p.1)) := by
+  rw [← zip_range_len]
+  simp only [zip]
+  rw [← List.zip_swap]
+  rfl
+
 /-- `for i, v in enumerate(xs)` whose body does not look at `i` is `for v in xs`. (`B0` is the whole body; the side condition
 says that it does not depend on the index, and is proved by the simplifier when the index does not occur.) -/
 theorem forIn_enumerate_unused {α σ} (xs : List α) (k : Int) (s0 : σ) (B0 : Int × α → σ → M (ForInStep σ))
@@ -380,6 +394,56 @@ theorem bind_congr_both {β γ} (a1 a2 : M β) (k1 k2 : β → M γ) (ha : a1 = 
     a1 >>= k1 = a2 >>= k2 := by
   subst ha; exact bind_congr h
 
+/-! ### two loops whose states correspond under a map `φ` (e.g. the same `let mut` variables declared in another order) -/
+
+/-- like `stepRel`, for a loop with state `σ₁` and a loop with state `σ₂` running in lock-step with states related by `φ` -/
+def stepRelMap {σ₁ σ₂ γ : Type} (φ : σ₁ → σ₂) (K1 : σ₁ → M γ) (K2 : σ₂ → M γ) : M (ForInStep σ₁) → M (ForInStep σ₂) → Prop
+  | .error e, .error e' => e = e'
+  | .ok (.yield a), .ok (.yield b) => φ a = b ∧ K1 a = K2 (φ a)
+  | .ok (.done a), .ok (.done b) => K1 a = K2 b
+  | _, _ => False
+
+theorem stepRelMap_yield {σ₁ σ₂ γ} (φ : σ₁ → σ₂) (K1 : σ₁ → M γ) (K2 : σ₂ → M γ) (a : σ₁) (b : σ₂) :
+    stepRelMap φ K1 K2 (pure (ForInStep.yield a)) (pure (ForInStep.yield b)) ↔ (φ a = b ∧ K1 a = K2 (φ a)) := Iff.rfl
+theorem stepRelMap_done {σ₁ σ₂ γ} (φ : σ₁ → σ₂) (K1 : σ₁ → M γ) (K2 : σ₂ → M γ) (a : σ₁) (b : σ₂) :
+    stepRelMap φ K1 K2 (pure (ForInStep.done a)) (pure (ForInStep.done b)) ↔ K1 a = K2 b := Iff.rfl
+theorem stepRelMap_ok_yield {σ₁ σ₂ γ} (φ : σ₁ → σ₂) (K1 : σ₁ → M γ) (K2 : σ₂ → M γ) (a : σ₁) (b : σ₂) :
+    stepRelMap φ K1 K2 (Except.ok (ForInStep.yield a)) (Except.ok (ForInStep.yield b)) ↔ (φ a = b ∧ K1 a = K2 (φ a)) := Iff.rfl
+theorem stepRelMap_ok_done {σ₁ σ₂ γ} (φ : σ₁ → σ₂) (K1 : σ₁ → M γ) (K2 : σ₂ → M γ) (a : σ₁) (b : σ₂) :
+    stepRelMap φ K1 K2 (Except.ok (ForInStep.done a)) (Except.ok (ForInStep.done b)) ↔ K1 a = K2 b := Iff.rfl
+theorem stepRelMap_error {σ₁ σ₂ γ} (φ : σ₁ → σ₂) (K1 : σ₁ → M γ) (K2 : σ₂ → M γ) (e e' : Err) :
+    stepRelMap φ K1 K2 (Except.error e) (Except.error e') ↔ e = e' := Iff.rfl
+theorem stepRelMap_bind {σ₁ σ₂ γ β} (φ : σ₁ → σ₂) (K1 : σ₁ → M γ) (K2 : σ₂ → M γ) (a : M β)
+    (k1 : β → M (ForInStep σ₁)) (k2 : β → M (ForInStep σ₂))
+    (h : ∀ v, stepRelMap φ K1 K2 (k1 v) (k2 v)) : stepRelMap φ K1 K2 (a >>= k1) (a >>= k2) := by
+  cases a with
+  | error e => exact rfl
+  | ok v => exact h v
+
+/-- simulation of a loop by a loop over a differently shaped state: the states stay related by `φ` while the loops continue,
+and when both break (or both run to the end) the rests of the two programs agree -/
+theorem forIn_bind_congr_map {α σ₁ σ₂ γ} (φ : σ₁ → σ₂) {xs : List α} {s0 : σ₁} {t0 : σ₂}
+    {B1 : α → σ₁ → M (ForInStep σ₁)} {B2 : α → σ₂ → M (ForInStep σ₂)} {K1 : σ₁ → M γ} {K2 : σ₂ → M γ}
+    (ht : t0 = φ s0) (h0 : K1 s0 = K2 (φ s0))
+    (h : ∀ x s, K1 s = K2 (φ s) → stepRelMap φ K1 K2 (B1 x s) (B2 x (φ s))) :
+    forIn xs s0 B1 >>= K1 = forIn xs t0 B2 >>= K2 := by
+  subst ht
+  induction xs generalizing s0 with
+  | nil => simpa using h0
+  | cons x xs ih =>
+    have hx := h x s0 h0
+    rw [List.forIn_cons, List.forIn_cons]
+    generalize B1 x s0 = r1 at hx
+    generalize B2 x (φ s0) = r2 at hx
+    match r1, r2, hx with
+    | .error e, .error e', hx => cases (show e = e' from hx); rfl
+    | .ok (.yield a), .ok (.yield b), hx =>
+      obtain ⟨rfl, hk⟩ := (show φ a = b ∧ K1 a = K2 (φ a) from hx)
+      exact ih hk
+    | .ok (.done a), .ok (.done b), hx => exact (show K1 a = K2 b from hx)
+
+theorem truthy_bool (b : Bool) : truthy b = b := rfl
+
 /-! ### comparisons: one spelling -/
 theorem pyLe_eq_not_pyGt {α β} [PyCmp α β] (a : α) (b : β) : pyLe a b = !pyGt a b := rfl
 theorem pyGe_eq_not_pyLt {α β} [PyCmp α β] (a : α) (b : β) : pyGe a b = !pyLt a b := rfl
@@ -418,7 +482,7 @@ macro_rules
         listComp_eq_flatComp, forIn_append_only, forIn_store_only, forIn_range_getItem, List.forIn_cons, List.forIn_nil,
         Dict.updatePairs_nil, Dict.updatePairs_cons, Dict.updatePairs_empty, Dict.update_eq_updatePairs, Dict.items_empty, Dict.items_set_empty,
         setItem_dict, setItem_attrs, Dict.keys_eq, Dict.values_eq, getItem_pair_zero, getItem_pair_one, getItem_pair_neg_one, getItem_pair_neg_two, pyIter_dict, pyIter_pair, pyIter_graph, pyLen_dict,
-        pyEq_len_zero, pyGt_len_zero, pyLt_zero_len, truthy_len, pyEq_int_zero, pyEq_zero_int, forIn_enumerate_unused, flatComp_enumerate_unused,
+        truthy_bool, pyEq_len_zero, pyGt_len_zero, pyLt_zero_len, truthy_len, pyEq_int_zero, pyEq_zero_int, forIn_enumerate_unused, flatComp_enumerate_unused, zip_range_len, zip_len_range,
         Int.add_comm, Int.add_left_comm, Int.add_assoc, Int.mul_comm, Int.mul_left_comm, Int.mul_assoc, pyEq_nil_right, pyEq_nil_left, pyEq_none_right, pyGt_eq_pyLt,
         Bool.not_not, Bool.not_and, Bool.not_or, flatComp_bind_flatten, join_nil_eq_flatten, flatten_map_singleton,
         stepVal_yield, stepVal_done,
@@ -434,20 +498,76 @@ macro_rules
       `(tactic| simp only [$all,*])
     | _ => Macro.throwUnsupported
 
--- structural descent for what normalisation leaves: same-shaped programs whose loops differ at `break` / after the loop
-macro "py_descend" : tactic =>
-  `(tactic| repeat' (first
+/-- all permutations of `l` (`k` = length of `l`) -/
+def permsAux : Nat → List Nat → List (List Nat)
+  | 0, _ => [[]]
+  | k + 1, l => l.flatMap fun a => (permsAux k (l.filter (· ≠ a))).map (a :: ·)
+
+-- `py_loop_perm tac`: the goal is `forIn xs s0 B1 >>= K1 = forIn xs t0 B2 >>= K2` where the two loop states are tuples with the
+-- same components in a different order: try `forIn_bind_congr_map` with every permutation `φ` of 2, 3 or 4 components that maps
+-- `s0` to `t0`; the two resulting goals must be closed by `tac`
+open Lean Elab Tactic Meta in
+elab "py_loop_perm " tac:tacticSeq : tactic => do
+  let comp (n i : Nat) : MacroM Term := do
+    let mut t ← `(s)
+    for _ in [0:i] do t ← `(($t).2)
+    if i + 1 < n then t ← `(($t).1)
+    return t
+  -- cheap shape test first: `forIn … >>= … = forIn … >>= …`
+  let tgt ← instantiateMVars (← (← getMainGoal).getType)
+  let isLoopBind (e : Expr) : Bool :=
+    e.isAppOfArity ``Bind.bind 6 && (e.getArg! 4).isAppOf ``ForIn.forIn
+  match tgt.eq? with
+  | some (_, lhs, rhs) => unless isLoopBind lhs && isLoopBind rhs do throwError "py_loop_perm: not two loops"
+  | none => throwError "py_loop_perm: not an equation"
+  let stateTy (e : Expr) : Expr := (e.getArg! 4).getArg! 4
+  let rec comps? : Nat → Expr → Option (List Expr)
+    | 0, _ => none
+    | 1, t => some [t]
+    | k + 2, t => if t.isAppOfArity ``Prod 2 then (comps? (k + 1) (t.getArg! 1)).map (t.getArg! 0 :: ·) else none
+  let some (_, lhs, rhs) := tgt.eq? | throwError "py_loop_perm: not an equation"
+  let σ₁ ← whnfR (stateTy lhs)
+  let σ₂ ← whnfR (stateTy rhs)
+  for n in [2, 3, 4] do
+    let some ts₁ := comps? n σ₁ | continue
+    let some ts₂ := comps? n σ₂ | continue
+    for p in permsAux n (List.range n) do
+      -- component `j` of the right state is component `p[j]` of the left state: the types must agree
+      unless (← (List.range n).allM fun j => isDefEq ts₂[j]! ts₁[p[j]!]!) do continue
+      let cs ← liftMacroM <| p.toArray.mapM (comp n)
+      let first := cs[0]!
+      let rest := cs.extract 1 cs.size
+      let φ ← `(fun s => ($first, $rest,*))
+      let s ← saveState
+      try
+        withoutRecover <|
+          evalTactic (← `(tactic| focus (refine forIn_bind_congr_map $φ (by rfl) ?_ ?_ <;> ($tac)); done))
+        return
+      catch _ => s.restore
+  throwError "py_loop_perm: no permutation of the loop state works"
+
+-- structural descent for what normalisation leaves: same-shaped programs whose loops differ at `break` / after the loop,
+-- or whose loop states are the same tuple in another order
+syntax "py_descend" : tactic
+macro_rules
+  | `(tactic| py_descend) =>
+  `(tactic| (
+      try simp only [stepRel_yield, stepRel_done, stepRel_error, stepRelMap_yield, stepRelMap_done, stepRelMap_error, true_and]
+      first
+      | done
       | py_bounded 5 rfl
-      | (intro _)
-      | (apply forIn_bind_congr_cont)
-      | (apply forIn_congr_cont)
-      | (apply stepRel_bind)
-      | (apply bind_congr)
-      | (simp_all [stepRel_yield, stepRel_done, stepRel_error, stepRel_ok_yield, stepRel_ok_done]; done)
-      | split
-      | (simp only [stepRel_yield, stepRel_done, stepRel_error, true_and])
-      | (apply stepRel_bind_congr)
-      | (apply bind_congr_both)))
+      | (intro _; py_descend)
+      | (apply forIn_bind_congr_cont <;> py_descend)
+      | (apply forIn_congr_cont <;> py_descend)
+      | (py_loop_perm (py_descend))
+      | (apply stepRel_bind <;> py_descend)
+      | (apply stepRelMap_bind <;> py_descend)
+      | (apply bind_congr <;> py_descend)
+      | (split <;> py_descend)
+      | (simp_all [stepRel_yield, stepRel_done, stepRel_error, stepRel_ok_yield, stepRel_ok_done,
+          stepRelMap_yield, stepRelMap_done, stepRelMap_error, stepRelMap_ok_yield, stepRelMap_ok_done]; done)
+      | (apply stepRel_bind_congr <;> py_descend)
+      | (apply bind_congr_both <;> py_descend)))
 
 -- `py_equiv [eqs]`: normalise both sides with the callee equalities `eqs` and the idiom lemmas, then close by reflexivity
 -- or by the structural descent. Every stage has its own heartbeat budget (`py_bounded`).
